@@ -80,8 +80,12 @@ def gen_case(r, tier, idx):
                 a = [one(0, 0.1, 0.1, 1.0), one(1, 0.12 * fd, 0.06 * fd, fd)]
             row.append(a)
         acts.append(row)
+    # gs_full: the scripted environment fills EVERY field of rex's GraphState (step, eps, seq, ts, params, inputs, timings_eps, buffer next to
+    # state and rng) with an injective image of its state and moves all of them on every step, as a compiled graph with adaptive node params,
+    # per-node clocks and ring buffers does; 1 case in 4 keeps the bare rng+state graph state (the other fields at rex's defaults, None included)
     return dict(rs=rs, ts=ts, us=us, lo=lo, hi=hi, ws=ws, vws=vws, B=B, gamma=gamma, acts=acts,
-                unbatched=(B == 1 and not vws and r.random() < 0.5), jit=(r.random() < 0.25), seed=r.randint(0, 2 ** 30))
+                unbatched=(B == 1 and not vws and r.random() < 0.5), jit=(r.random() < 0.25), seed=r.randint(0, 2 ** 30),
+                gs_full=(idx % 4 != 3))
 
 
 def case_feats(c, dones):
@@ -89,6 +93,7 @@ def case_feats(c, dones):
     if c["B"] > 1: f.append("batch>1")
     if c["unbatched"]: f.append("unbatched")
     if c["jit"]: f.append("jit")
+    if c.get("gs_full"): f.append("all-graph-state-fields-evolve")
     flat = [d for row in dones for d in row]
     if any(flat): f.append("episode-end")
     for b in range(c["B"]):
@@ -108,7 +113,8 @@ def senv_class():
 
     class SEnv:
         """scripted lattice environment with the API of rl.Environment (a user environment as far as the wrappers know)"""
-        def __init__(self, rs, ts, us, lo, hi):
+        def __init__(self, rs, ts, us, lo, hi, full=False):
+            self.full = full
             self.rs = jnp.array([[float(x) for x in row] for row in rs], jnp.float32)
             self.ts, self.us = jnp.array(ts), jnp.array(us)
             self.lo = jnp.array([float(x) for x in lo], jnp.float32); self.hi = jnp.array([float(x) for x in hi], jnp.float32)
@@ -124,8 +130,19 @@ def senv_class():
         def reset(self, rng=None):
             sid, acc = self.draw(rng)
             t = jnp.int32(0)
-            gs = base.GraphState(rng=FrozenDict({"agent": rng}), state=FrozenDict({"agent": dict(t=t, acc=acc, sid=sid)}))
+            gs = base.GraphState(rng=FrozenDict({"agent": rng}), state=FrozenDict({"agent": dict(t=t, acc=acc, sid=sid)}), **self.fields(t, acc, sid))
             return gs, self._obs(acc, t, jnp.zeros(2)), {"t": t}
+        def fields(self, t, acc, sid):
+            """the other fields of the graph state: each an injective image of (t, acc, sid) (see gs_fields_expected), so each of them changes
+            on every step of an episode and differs between the state an episode reached and any initial state"""
+            if not self.full: return {}
+            code = ((t * P + acc) * 4 + sid).astype(jnp.int32)
+            cf = code.astype(jnp.float32)                                   # < 2^24: exact
+            return dict(step=code, eps=code + 1, seq=FrozenDict({"agent": code + 2}), ts=FrozenDict({"agent": cf / 64}),
+                        params=FrozenDict({"agent": dict(gain=cf / 2, w=jnp.stack([t, acc, sid]).astype(jnp.int32))}),
+                        inputs=FrozenDict({"agent": FrozenDict({"world": dict(seq=jnp.stack([code + 3]), data=jnp.stack([cf, -cf]))})}),
+                        timings_eps=dict(run=code + 4),
+                        buffer=FrozenDict({"agent": jnp.stack([jnp.stack([cf, cf + 1]), jnp.stack([cf + 2, cf + 3])])}))
         def step(self, gs, action):
             s = gs.state["agent"]; t, acc, sid = s["t"], s["acc"], s["sid"]
             L = self.rs.shape[1]
@@ -136,15 +153,36 @@ def senv_class():
             tr = jnp.logical_or(self.us[sid, t % L], action[1] <= self.lo[1])
             t2 = t + 1
             rng2 = jax.random.split(gs.rng["agent"])[0]
-            gs2 = gs.replace(rng=FrozenDict({"agent": rng2}), state=FrozenDict({"agent": dict(t=t2, acc=acc2, sid=sid)}))
+            gs2 = gs.replace(rng=FrozenDict({"agent": rng2}), state=FrozenDict({"agent": dict(t=t2, acc=acc2, sid=sid)}), **self.fields(t2, acc2, sid))
             return gs2, self._obs(acc2, t2, action), r, te, tr, {"t": t2}
     _cls["c"] = SEnv
     return SEnv
 
 
+GS_FIELDS = ("step", "eps", "seq", "ts", "params", "inputs", "timings_eps", "buffer")
+
+
+def gs_fields_expected(core):
+    """what SEnv.fields puts into the graph state for the environment state core = (t, acc, sid), flattened to exact numbers"""
+    t, acc, sid = core
+    code = (t * P + acc) * 4 + sid
+    return dict(step=[code], eps=[code + 1], seq=[code + 2], ts=[Fraction(code, 64)], params=[Fraction(code, 2), t, acc, sid],
+                inputs=[code, -code, code + 3], timings_eps=[code + 4], buffer=[code, code + 1, code + 2, code + 3])
+
+
+def gs_fields_decode(vals):
+    """the (t, acc, sid) a field's content is the image of, for messages (every field starts with code, code + k or code / k)"""
+    out = {}
+    for f, v in vals.items():
+        k = {"step": v[0], "eps": v[0] - 1, "seq": v[0] - 2, "ts": v[0] * 64, "params": v[0] * 2, "inputs": v[0], "timings_eps": v[0] - 4,
+             "buffer": v[0]}[f]
+        out[f] = (int(k) // (4 * P), (int(k) // 4) % P, int(k) % 4) if Fraction(k).denominator == 1 and k >= 0 else None
+    return out
+
+
 def build_stack(c):
     from rex import rl
-    env = senv_class()(c["rs"], c["ts"], c["us"], c["lo"], c["hi"])
+    env = senv_class()(c["rs"], c["ts"], c["us"], c["lo"], c["hi"], full=bool(c.get("gs_full")))
     base_env = env
     mk = {"af": lambda e: rl.AutoResetWrapper(e, fixed_init=True), "an": lambda e: rl.AutoResetWrapper(e, fixed_init=False),
           "log": rl.LogWrapper, "sq": lambda e: rl.SquashActionWrapper(e, squash=True),
@@ -196,6 +234,12 @@ def impl_run(c):
             logs = [[FQ((col[b])) for col in cols] for b in range(B)]
         envs = [dict(core=(int(tt[b]), int(acc[b]), int(sid[b])), key=tuple(int(x) for x in kd[b]), log=None if logs is None else logs[b])
                 for b in range(B)]
+        if c.get("gs_full"):
+            # every other field of the returned graph state, per environment, as exact numbers (leaves in jax's flattening order: sorted keys)
+            for f in GS_FIELDS:
+                leaves = [bat(x) for x in jax.tree_util.tree_leaves(getattr(gs, f))]
+                for b in range(B):
+                    envs[b].setdefault("fields", {})[f] = [FQ(v) for x in leaves for v in onp.asarray(x[b]).reshape(-1)]
         nobs = None
         if aux.get("norm_obs", None) is not None:
             ns = aux["norm_obs"]
@@ -356,6 +400,11 @@ def law_checks(c, trace):
     for b in range(c["B"]):
         ret = Fraction(0); ln = 0
         init = trace[0]
+        if "fields" in init["envs"][b]:
+            e = init["envs"][b]; want = gs_fields_expected(e["core"])
+            bad = [f for f in GS_FIELDS if e["fields"][f] != want[f]]
+            if bad: out.append(("graph-state-fields-mixed[" + ",".join(bad) + "]", f"reset env {b}: the returned graph state has state (t, acc, script) = "
+                                f"{e['core']} but field(s) {bad} are not the ones the wrapped environment's reset returns with it"))
         for n in range(1, len(trace)):
             rec = trace[n]; prev = trace[n - 1]
             done = rec["te"][b] or rec["tr"][b]
@@ -367,6 +416,25 @@ def law_checks(c, trace):
             if "af" in ws and done and "nobs" not in c["vws"]:
                 if rec["envs"][b]["core"] != init["envs"][b]["core"] or rec["obs"][b] != init["obs"][b]:
                     out.append(("autoreset-not-initial", f"step {n} env {b}: episode ended but the returned state/observation is not the stored initial one"))
+            if "fields" in rec["envs"][b]:
+                # the graph state is ONE value: whatever state a wrapper returns (the stored initial one at an episode end, a freshly drawn
+                # one, or the wrapped environment's own) it returns all of its fields, not state from one and params/seq/buffer/... from another
+                e = rec["envs"][b]; want = gs_fields_expected(e["core"])
+                bad = [f for f in GS_FIELDS if e["fields"][f] != want[f]]
+                if bad:
+                    dec = gs_fields_decode({f: e["fields"][f] for f in bad})
+                    pdec = prev["envs"][b]["core"]
+                    if "af" in ws and done:
+                        i0 = init["envs"][b]
+                        out.append(("autoreset-not-initial[" + ",".join(bad) + "]",
+                                    f"step {n} env {b}: the episode ended and the returned graph state has the stored initial state "
+                                    f"(t, acc, script) = {e['core']}, but its field(s) {bad} are not the stored initial ones: "
+                                    + "; ".join(f"{f} = {[float(v) for v in e['fields'][f]]} (the value belonging to environment state {dec[f]}, "
+                                                f"which the finished episode reached from {pdec}) instead of the stored {[float(v) for v in i0['fields'][f]]}" for f in bad[:3])))
+                    else:
+                        out.append(("graph-state-fields-mixed[" + ",".join(bad) + "]",
+                                    f"step {n} env {b}: the returned graph state has state (t, acc, script) = {e['core']} but field(s) {bad} hold "
+                                    f"the values belonging to other environment states: " + "; ".join(f"{f} -> {dec[f]}" for f in bad[:3])))
             if "log" in ws and "nrew" not in c["vws"]:
                 ret += rec["rew"][b]; ln += 1
                 il = rec["info"][b][1]
@@ -554,10 +622,12 @@ def env_symbolic_check(chk):
             chk.violation("env-graph-calls", f"{nm}: unexpected sequence of graph calls {calls}", dict(which=nm, calls=str(calls)))
 
 
-def env_graph_check(chk, steps):
-    """a tiny compiled rex Graph: Environment.step(gs, a) must equal graph.step(gs, supervisor step state, get_output(gs, a))
-    and the supervisor's slot of the output buffer must hold the action"""
-    import jax, jax.numpy as jnp, numpy as onp
+_tg = {}
+def tiny_graph():
+    """a compiled 2-node rex Graph whose nodes ADAPT THEIR PARAMS in step() (integer-valued float32: exact in every evaluation order) and an
+    Environment on it; returns (graph, Arr, E)"""
+    if "g" in _tg: return _tg["g"]
+    import jax, jax.numpy as jnp
     from distrax import Deterministic
     from flax import struct
     from rex.artificial import generate_graphs
@@ -577,8 +647,8 @@ def env_graph_check(chk, steps):
             x = 0.0
             for name, inp in ss.inputs.items():
                 x = x + jnp.sum(inp.data.a * jnp.arange(1, inp.data.a.size + 1).reshape(inp.data.a.shape))
-            new = (3 * ss.state.a + x) % 64
-            return ss.replace(state=Arr(new)), Arr(jnp.concatenate([new, jnp.array([x])]))
+            new = (3 * ss.state.a + x + ss.params.a) % 64
+            return ss.replace(state=Arr(new), params=Arr((5 * ss.params.a + 3) % 16)), Arr(jnp.concatenate([new, jnp.array([x])]))
     agent = W(name="agent", rate=4, delay_dist=Deterministic(1 / 64), advance=False)
     world = W(name="world", rate=8, delay_dist=Deterministic(1 / 64), advance=False)
     world.connect(agent, window=2, blocking=False, delay_dist=Deterministic(1 / 64))
@@ -589,12 +659,23 @@ def env_graph_check(chk, steps):
         g = Graph(nodes=nodes, supervisor=agent, graphs_raw=generate_graphs(nodes, 3.0, num_episodes=1))
 
     class E(rl.Environment):
+        def observation_space(self, gs): return rl.Box(jnp.zeros(4), 64 * jnp.ones(4))
+        def action_space(self, gs): return rl.Box(-4 * jnp.ones(2), 4 * jnp.ones(2))
         def get_output(self, gs, a): return Arr(a)
         def get_observation(self, gs): return gs.step_state["agent"].inputs["world"].data.a.reshape(-1)
         def get_reward(self, gs, a): return gs.state["world"].a[0] + a[0]
         def get_terminated(self, gs): return gs.seq["agent"] >= 5
         def get_truncated(self, gs): return gs.state["world"].a[0] > 40
         def get_info(self, gs, action=None): return {"s": gs.seq["world"]}
+    _tg["g"] = (g, Arr, E)
+    return _tg["g"]
+
+
+def env_graph_check(chk, steps):
+    """a tiny compiled rex Graph: Environment.step(gs, a) must equal graph.step(gs, supervisor step state, get_output(gs, a))
+    and the supervisor's slot of the output buffer must hold the action"""
+    import jax, jax.numpy as jnp, numpy as onp
+    g, Arr, E = tiny_graph()
     r = chk.rnd
     eq = lambda x, y: bool(jax.tree_util.tree_all(jax.tree_util.tree_map(lambda u, v: bool(jnp.all(jnp.asarray(u) == jnp.asarray(v))), x, y)))
     for oi in (False, True):
@@ -617,6 +698,108 @@ def env_graph_check(chk, steps):
             if not bool(jnp.all(out[0].buffer["agent"].a[slot] == a)):
                 chk.violation("env-output-not-action", "the supervisor's output buffer does not hold the action after Environment.step", case); break
             gs = out[0]
+
+
+def env_graph_autoreset_check(chk, nconf, steps):
+    """AutoResetWrapper (stored / fresh initial state; single or vmapped + jitted; with or without LogWrapper) around an Environment on a compiled
+    rex Graph whose graph state really evolves in every field during an episode: nodes that adapt their params in step(), an
+    update_graph_state_pre_step hook that edits params, per-node seq/ts, input windows, output ring buffers.  The property's clause is checked
+    on the returned values themselves: the step that ends an episode returns the stored initial graph state (every field except the rng
+    stream and the wrappers' aux) with the stored observation and info while reward and flags are the wrapped environment's; every other step
+    returns exactly what the wrapped environment returns.  (All node initialisers of this graph are deterministic, so a freshly drawn
+    initial state equals the stored one in every field but rng.)"""
+    import contextlib, io
+    import jax, jax.numpy as jnp, numpy as onp
+    from rex import rl
+    g, Arr, E = tiny_graph()
+    r = chk.rnd
+
+    def np_leaves(x):
+        l, t = jax.tree_util.tree_flatten(x)
+        return [onp.asarray(v) for v in l], t
+    def same(x, y):
+        lx, tx = np_leaves(x); ly, ty = np_leaves(y)
+        return tx == ty and all(u.shape == v.shape and onp.array_equal(u, v) for u, v in zip(lx, ly))
+    FIELDS = ("step", "eps", "seq", "ts", "params", "state", "inputs", "timings_eps", "buffer")
+    def diff_fields(x, y, b=None):
+        sel = (lambda v: v) if b is None else (lambda v: jax.tree_util.tree_map(lambda u: onp.asarray(u)[b], v))
+        return [f for f in FIELDS if not same(sel(getattr(x, f)), sel(getattr(y, f)))]
+    def show(gs, f, b):
+        return [onp.asarray(v if b is None else onp.asarray(v)[b]).reshape(-1).tolist() for v in jax.tree_util.tree_leaves(getattr(gs, f))][:4]
+
+    confs = [(fixed, vec, log) for fixed in (True, False) for vec in (False, True) for log in (False, True)]
+    r.shuffle(confs)
+    confs = sorted(confs[:nconf], key=lambda x: not x[0])
+    if not any(c[0] for c in confs): confs[0] = (True,) + confs[0][1:]
+    for fixed, vec, log in confs:
+        klen = r.randint(2, 4); hook = r.random() < 0.7
+
+        class EH(E):
+            def get_terminated(self, gs): return gs.seq["agent"] >= klen
+            def update_graph_state_pre_step(self, gs, a):          # an environment-level edit of params before the graph is stepped
+                if not hook: return gs
+                return gs.replace(params=gs.params.copy({"agent": Arr((gs.params["agent"].a + 2) % 16)}))
+        env = EH(g)
+        wrapped = rl.AutoResetWrapper(env, fixed_init=fixed)
+        if log: wrapped = rl.LogWrapper(wrapped)
+        plain = env
+        B = r.randint(2, 3) if vec else None
+        if vec: wrapped = rl.VecEnvWrapper(wrapped); plain = rl.VecEnvWrapper(env)
+        wstep, pstep = (jax.jit(wrapped.step), jax.jit(plain.step)) if vec else (wrapped.step, plain.step)
+        key = jax.random.PRNGKey(r.randint(0, 10 ** 6))
+        desc = dict(graph="agent(4 Hz) <-> world(8 Hz), both adapt params in step()", fixed_init=fixed, vmapped_batch=B, jit=vec, log_wrapper=log,
+                    pre_step_hook_edits_params=hook, episode_len=klen)
+        stack = ("af" if fixed else "an") + ("+log" if log else "") + ("+vec" if vec else "")
+        try:
+            with contextlib.redirect_stdout(io.StringIO()):
+                gs, obs0, info0 = wrapped.reset(jax.random.split(key, B) if vec else key)
+                stored = gs
+                acts = []
+                for n in range(1, steps + 1):
+                    a = jnp.array([[r.randint(-32, 32) / 8, r.randint(-32, 32) / 8] for _ in range(B or 1)], jnp.float32)
+                    if not vec: a = a[0]
+                    acts.append(onp.asarray(a).tolist())
+                    ow = wstep(gs, a); op = pstep(gs, a)
+                    case = dict(desc, step=n, actions=acts)
+                    chk.case(("graph-autoreset", stack, hook, klen, n, str(acts[-1])), ["env-real-graph", "autoreset-on-graph", "params-evolve"]
+                             + (["batch>1", "jit"] if vec else []), case if n == 1 else None)
+                    chk.traces_impl += 1
+                    if not (same(ow[2], op[2]) and same(ow[3], op[3]) and same(ow[4], op[4])):
+                        chk.violation("graph-autoreset-reward-flags:" + stack, f"step {n}: reward/terminated/truncated of the auto-reset stack "
+                                      f"{[onp.asarray(x).tolist() for x in ow[2:5]]} are not the wrapped environment's "
+                                      f"{[onp.asarray(x).tolist() for x in op[2:5]]}", case); break
+                    done = onp.logical_or(onp.asarray(op[3]), onp.asarray(op[4])).reshape(-1)
+                    bad = None
+                    for b in range(B or 1):
+                        bb = b if vec else None
+                        pick = (lambda v: jax.tree_util.tree_map(lambda u: onp.asarray(u)[b], v)) if vec else (lambda v: v)
+                        if done[b]:
+                            chk.feat("graph-autoreset-episode-end")
+                            d = diff_fields(ow[0], stored, bb)
+                            if d:
+                                f = d[0]
+                                bad = ("graph-autoreset-not-initial[" + ",".join(d) + "]:" + stack,
+                                       f"step {n}" + (f" env {b}" if vec else "") + f": the episode ended (terminated/truncated = "
+                                       f"{bool(onp.asarray(op[3]).reshape(-1)[b])}/{bool(onp.asarray(op[4]).reshape(-1)[b])}) but field(s) {d} of the returned "
+                                       f"graph state are not those of the {'stored' if fixed else 'freshly drawn (deterministic initialisers: = first)'} "
+                                       f"initial state: {f} = {show(ow[0], f, bb)} vs initial {show(stored, f, bb)} (wrapped environment's own step: "
+                                       f"{show(op[0], f, bb)})"); break
+                            info_w = {k: ow[5][k] for k in op[5]}
+                            if not (same(pick(ow[1]), pick(obs0)) and same(pick(info_w), pick({k: info0[k] for k in op[5]}))):
+                                bad = ("graph-autoreset-obs-not-initial:" + stack, f"step {n}: the episode ended but the returned observation/info "
+                                       f"{onp.asarray(pick(ow[1])).tolist()} is not the initial one {onp.asarray(pick(obs0)).tolist()}"); break
+                        else:
+                            d = diff_fields(ow[0], op[0], bb)
+                            if fixed and not same(pick(ow[0].rng), pick(op[0].rng)): d.append("rng")     # (fresh: one key is split on every step)
+                            info_w = {k: ow[5][k] for k in op[5]}
+                            if d or not same(pick(ow[1]), pick(op[1])) or not same(pick(info_w), pick(op[5])):
+                                bad = ("graph-autoreset-not-passthrough:" + stack, f"step {n}" + (f" env {b}" if vec else "") + ": no episode end, but the "
+                                       f"returned graph state (fields {d}) / observation / info differ from the wrapped environment's own step"); break
+                    if bad:
+                        chk.violation(bad[0], bad[1], case); break
+                    gs = ow[0]
+        except Exception as ex:  # noqa
+            chk.violation("graph-autoreset-raises:" + stack, f"rex raised on AutoResetWrapper over a compiled graph: {type(ex).__name__}: {str(ex)[:300]}", desc)
 
 
 # ---------------------------------------------------------------- main
@@ -678,17 +861,26 @@ def run(chk, replay=None):
     guarded("normalize-kernel-checks", normalize_kernel_checks, 60 if chk.tier == "quick" else 400)
     guarded("env-symbolic-check", env_symbolic_check)
     guarded("env-graph-check", env_graph_check, 3 if chk.tier == "quick" else 8)
+    guarded("env-graph-autoreset-check", env_graph_autoreset_check, *((3, 7) if chk.tier == "quick" else (8, 12)))
     chk.extra["rule"] = ("scripted lattice environment (reward / terminated / truncated scripts per episode step, script row and initial "
                          "accumulator drawn from the reset key, actions on the 1/64 lattice, termination also requested through action[1]) under a "
                          "random wrapper stack (AutoReset stored/fresh, Log outside AutoReset, Squash on/off, Clip, in random order; then "
                          "VecEnvWrapper with batch 1-8 or unbatched; then NormalizeVecObservation/NormalizeVecReward in either order), 8-30 steps; "
                          "every returned state, rng key, observation, reward, flag, info entry, log and normaliser state is compared with the "
                          "model. A case is non-trivial when it has at least one wrapper; distinct by full case description. Plus kernel cases "
-                         "(SquashState, NormalizeVec), Environment.step/reset on symbolic terms and on a compiled 2-node rex Graph")
+                         "(SquashState, NormalizeVec), Environment.step/reset on symbolic terms and on a compiled 2-node rex Graph. In 3 of 4 "
+                         "scripted cases the environment fills every field of GraphState (step, eps, seq, ts, params, inputs, timings_eps, buffer) "
+                         "with an injective image of its state, all of them moving on every step; every returned graph state must carry the "
+                         "fields belonging to its state (at an episode end under fixed_init: the stored initial ones). Plus AutoResetWrapper "
+                         "(stored/fresh, single or vmapped+jitted, with/without LogWrapper) over an Environment on the compiled graph whose nodes "
+                         "adapt their params in step() and whose pre-step hook edits params: episode-end steps must return the initial graph "
+                         "state field by field with the initial observation/info, other steps exactly the wrapped environment's result")
     chk.trusted += ["scripted environment SEnv (harness/c19.py) = Gallina s_reset/s_step (coq/RlScript.v): the wrapped environment of the model",
                     "PRNG: jax.random.split modelled as positions in the binary split tree; reset draws tabulated from the real keys along the "
                     "implementation's own path", "sat_tanh (float32 tanh is exactly +-1 for |x| >= 20, 0 at 0) and qsqrt (12 decimals) in the "
                     "executable Q instance; Coq Interval for the certified enclosures of tanh/arctanh at other points"]
+    chk.trusted += ["SEnv.fields / gs_fields_expected (harness/c19.py): the non-state GraphState fields of the scripted environment are a fixed "
+                    "injective function of its state, so the model's atomic environment state stands for the whole graph state"]
     chk.notes += ["floating point: un-normalised values (states, observations, rewards, log totals) are dyadic and compared exactly; normalised "
                   "observations/rewards within 2e-3(1+|v|), normaliser states within 1e-4(1+|v|) (float32 accumulation); squash outputs may "
                   "sit on the closed bound in float32 (tanh saturates) while the theorem gives the open interval over R",
